@@ -6,3 +6,14 @@ Definition text_ma {pw : PW} (s : ustr) : list Z :=
   match ma_from_str s with Some (k, n) => [0; ma_code k; n] | None => [T_ERR] end.
 Definition text_source (s : ustr) : list Z :=
   match source_from_str s with Some k => [0; source_code k] | None => [T_ERR] end.
+
+From Yata Require Import Base.Num Base.NumF64 Exec.MethodRun.
+From Coq Require Import Floats.
+(** layout of harness `candle helpers` *)
+Definition candle_helpers (c : candle (N := NumF64)) (pc : float) : list Z :=
+  [f64_bits (c_tp c); f64_bits (c_hl2 c); f64_bits (c_ohlc4 c); f64_bits (c_clv c);
+   f64_bits (c_tr_close c pc); f64_bits (c_tr_close c pc); f64_bits (c_volumed_price c);
+   (if c_validate c then 1 else 0); (if c_is_rising c then 1 else 0); (if c_is_falling c then 1 else 0)]
+  ++ map (fun s => f64_bits (c_source c s)) [SClose; SHigh; SLow; STP; SHL2; SVolume; SVolumedPrice; SOpen] ++ [1].
+Definition candle_add3 (a b c : candle (N := NumF64)) : list Z :=
+  encC (c_add (c_add a b) c) ++ encC (c_add a (c_add b c)) ++ encC (c_add a b).
